@@ -9,6 +9,8 @@ def parseCode (s : String) : Option Nat :=
   if s = "x" then some 1000000000 else
   match s.toList with
   | 'c' :: rest => (String.ofList rest).toNat?
+  -- another SPELLING of an issued uuid (upper case, urn:uuid:, braces, no dashes) is a string that was never issued
+  | 'C' :: rest | 'u' :: rest | 'b' :: rest | 'n' :: rest => (String.ofList rest).toNat?.map (fun k => 2000000000 + k)
   | _ => none
 
 def showOut : TtlCode.Out → String
